@@ -105,8 +105,18 @@ def impl_pairs(case):
             "real": {k: real[k] for k in ("rc", "events", "gens", "before", "after", "ops", "err")}}
 
 
+def has_dir_link(case):
+    spec = case["spec"]
+    return any(isinstance(v, (list, tuple)) and
+               spec.get(os.path.normpath(os.path.join(os.path.dirname(p), v[1])), 0) is None for p, v in spec.items())
+
+
 def compare_pairs(case, obs, pred):
     ok = True
+    if has_dir_link(case):
+        # paths through a symlinked directory are outside the FS model (K2): judged by the oracle only
+        obs["model_dry"] = obs["model_real"] = "unmodelled"
+        return True
     for which, flag in (("dry", True), ("real", False)):
         o = dict(obs[which], other=[], snaps=[])
         comparable, equal, detail = fsrun.compare_with_model(case, o, dry_override=flag)
